@@ -126,11 +126,13 @@ PROPS = {
     },
     "C08": {
         "kind": "client", "modules": ["OAP.Props.C08"],
-        "keys": ["uses_session_iff_unexpired", "fallback_on_unauthenticated", "after_cb_only_on_success", "hitmax_reported", "one_connection", "serves_again", "one_recovery_per_loss"],
+        "keys": ["uses_session_iff_unexpired", "fallback_on_unauthenticated", "after_cb_only_on_success", "hitmax_reported", "one_connection", "serves_again", "one_recovery_per_loss", "recovery_matches_model", "recovery_ends"],
         "rule": "the peer plays per-attempt outcome sequences over {refuse, drop before answer, unauthenticated, other status, silence, ok} after a loss, "
                 "with expired / unexpired session, with / without token getter, MaxReconnect in {0,1,2,3}; observed: first request kind and session/"
                 "token on every connection, callbacks, open connections, later requests; loss causes EOF, close packet, garbage, refused dials (C06's "
-                "fault scenarios also run here). Compared with the decision logic's prediction.",
+                "fault scenarios also run here). Compared with the decision logic's prediction. Model-scripted scenarios (c08/model-script-NN): random "
+                "scripts from that domain incl. several losses in a row, played attempt by attempt through the gate at `reconnect:attempt`; the Lean "
+                "model `Reconnect.recover` is evaluated on the same script by the driver and its observable action sequence must equal the observed one.",
         "partial": "loss detection by the OS and wall-clock back-off are runtime",
     },
     "C12": {
@@ -142,7 +144,7 @@ PROPS = {
         "partial": "net.Conn.Write and gorilla/websocket are runtime",
     },
     "C13": {
-        "kind": "client", "modules": ["OAP.Props.C13"], "keys": ["dispatch_spec", "loss_accounting", "control_never_to_subscribers"],
+        "kind": "client", "modules": ["OAP.Props.C13"], "keys": ["dispatch_spec", "loss_accounting", "control_never_to_subscribers", "dispatch_matches_model"],
         "rule": "pushes of 4 commands with 0-3 handlers each, interleaved with control pushes and unsolicited responses, bursts of 12..300 frames in one "
                 "TCP write, slow handlers, queue overflow, across a reconnect, pushes sent the moment the connection is accepted; the handler invocation "
                 "log is compared with the routing spec applied to the frames the peer sent (minus logged drops).",
@@ -157,7 +159,7 @@ PROPS = {
         "partial": "known residue: the retry goroutine may invoke the after-reconnect callback just after Close returned if descheduled between its check and the call",
     },
     "C15": {
-        "kind": "client", "modules": ["OAP.Props.C15"], "keys": ["heartbeat_shape", "detects_dead", "no_false_positive", "echo", "ping_callback", "timing"],
+        "kind": "client", "conformance": True, "modules": ["OAP.Props.C15"], "keys": ["heartbeat_shape", "detects_dead", "no_false_positive", "echo", "ping_callback", "timing"],
         "rule": "timed scenarios (interval 2 units, timeout 4): peer answers always / never / stops after 3, with and without token, after a recovery slower "
                 "than the keepalive timeout (resume path and no-auth path), TCP and WebSocket; heartbeat frames decoded with the real protobuf: fresh ids, "
                 "body id = request id; healthy peer: zero keepalive-caused reconnects over 30 intervals; dead peer: recycled and pinged again; TCP echo of "
